@@ -716,6 +716,9 @@ func vsDecode(t *vsT, b []byte) vsDecoded {
 	d.panicMsg, d.timeout = vGuard(20*time.Second, func() {
 		d.alloc = vsAllocDuring(func() { d.err = Unmarshal(in, dst.Interface()) })
 	})
+	if d.alloc > 1<<20 {
+		runtime.GC() // megabyte-sized zero-filled results must not pile up between collections
+	}
 	if d.panicMsg == "" && !d.timeout && d.err == nil && d.alloc <= vsAllocBudget(len(b)) {
 		// consumed length: same decoder on a reader that can be asked what is left
 		dst2 := reflect.New(t.goType())
@@ -832,8 +835,14 @@ func vsRunDec(res *vResult, bi, si int, c *vsCase, raw json.RawMessage) {
 		return
 	}
 	if d.alloc > vsAllocBudget(len(b)) {
+		// the one place that allocates from a declared length is the byte-string decoder; a type without
+		// a byte-string leaf that over-allocates is a different defect and keeps its own signature
+		sig := "C12/alloc/" + where
+		if t.hasKind("bytes") || t.hasKind("str") || strings.Contains(t.String(), "slice(u8)") {
+			sig = "C12/alloc/declared-byte-length"
+		}
 		res.Fail(bi, si, "dec", "allocation", fmt.Sprintf("<= %d bytes for %d input bytes", vsAllocBudget(len(b)), len(b)),
-			fmt.Sprintf("%d bytes", d.alloc), "C12/alloc/"+where, raw)
+			fmt.Sprintf("%d bytes", d.alloc), sig, raw)
 	}
 	if d.err != nil {
 		if c.Res.Ok {
@@ -962,7 +971,7 @@ func vsRun(t *testing.T, prop string) {
 		}
 		per := 40
 		if vThorough() {
-			per = 400
+			per = 150
 		}
 		vsRandStrings(res, types, per)
 	}
